@@ -1,7 +1,7 @@
 (* Props/C07.v — property theorems only. *)
 From Coq Require Import List NArith ZArith Bool.
 From N0 Require Import Base.PyStr Base.PyVal Compare.Util Compare.Flags Compare.Match Compare.Model
-  Compare.Spec Compare.WalkLemmas Compare.VerdictProofs Compare.DefaultProofs Compare.ReflProofs Compare.SymProofs Compare.TransProofs Compare.EqImpliesProofs.
+  Compare.Spec Compare.WalkLemmas Compare.VerdictProofs Compare.DefaultProofs Compare.ReflProofs Compare.SymProofs Compare.TransProofs Compare.EqImpliesProofs Compare.DefaultReflProofs.
 Import ListNotations.
 
 (* direct_compare (the ordered walk): for every flag state, every pair of
@@ -143,3 +143,18 @@ Theorem C07_direct_equal_default_equal :
   compare_top fl' o MKeyed ck' a b = Ok r -> r = [].
 Proof. exact direct_equal_default_equal. Qed.
 Print Assumptions C07_direct_equal_default_equal.
+
+(* compare (no composite key) of an operand with itself: whenever it returns a
+   report inside its guard, the report is empty; with a concrete nested instance. *)
+Theorem C07_default_reflexive :
+  forall fl o ck a r,
+  quiet o -> ck_empty ck -> good a -> wf a -> keys_ok a a = true ->
+  compare_top fl o MKeyed ck a a = Ok r -> r = [].
+Proof. exact default_reflexive. Qed.
+Print Assumptions C07_default_reflexive.
+
+Theorem C07_default_reflexive_nonvacuous :
+  good dv_a /\ wf dv_a /\ keys_ok dv_a dv_a = true /\
+  compare_top flags_init no_opts MKeyed (PSeq []) dv_a dv_a = Ok [].
+Proof. exact default_reflexive_example. Qed.
+Print Assumptions C07_default_reflexive_nonvacuous.
